@@ -251,6 +251,43 @@ def native_orders(chk, cat, base_f):
                           {'job': 'report', 'category': cat, 'findings_orders': specs, 'distinct_texts': sorted(texts)[:2]})
 
 
+def whole_runs(chk):
+    """the compiled binary, the same directory several times (every process has its own hash seed, and the directory is listed in the
+    order the file system happens to give): every run must leave byte-identical reports"""
+    import os
+    import subprocess
+    from . import c15
+    from .. import dirlib as dl, sol
+    root = os.path.join(chk.native.dir, 'runs%d' % chk.native.n); chk.native.n += 1
+    os.makedirs(os.path.join(root, 'proj', 'sub', 'deep'))
+    probe, _ = sol.print_source(c15.probe_file(sol.TreeBuilder()), wrap_params=True)
+    files = {'Probe.sol': probe, 'sub/Probe.sol': '\n' + probe, 'sub/deep/Other.sol': dl.file_text(['solidity_math', 'sstore', 'divide_before_multiply', 'constructor_order'], 3),
+             'Many.sol': 'pragma solidity ^0.8.16;\ncontract M {\n%s}\n' % ''.join(
+                 '    function f%d(\n        uint256[] memory a%d,\n        string memory b%d,\n        bytes memory c%d\n    ) external { a%d; }\n' % ((i,) * 5) for i in range(6))}
+    for rel, text in files.items():
+        open(os.path.join(root, 'proj', rel), 'w').write(text)
+    binary = os.path.join(chk.world.build, 'solstat')
+    n = 8 if chk.quick else 40
+    seen = {}
+    for i in range(n):
+        cwd = os.path.join(root, 'cwd%d' % (i % 2))
+        os.makedirs(cwd, exist_ok=True)
+        p = subprocess.run([binary, '--path', os.path.join(root, 'proj')], cwd=cwd, stdout=subprocess.PIPE, stderr=subprocess.PIPE)
+        rp = os.path.join(cwd, 'solstat_report.md')
+        text = open(rp, 'rb').read() if p.returncode == 0 and os.path.exists(rp) else ('exit %d' % p.returncode).encode()
+        seen.setdefault(text, []).append(i)
+        chk.states += 1
+    chk.validated += 1
+    if len(seen) > 1:
+        a, b_ = list(seen)[:2]
+        k = next((i for i in range(min(len(a), len(b_))) if a[i] != b_[i]), min(len(a), len(b_)))
+        chk.violation('run:report-differs-between-runs', '%d runs of the binary over the same directory wrote %d different reports; first difference at byte %d: %r / %r' % (
+            n, len(seen), k, a[max(0, k - 40):k + 30], b_[max(0, k - 40):k + 30]), {'job': 'solstat', 'files': files, 'runs': n})
+    else:
+        chk.ok()
+    chk.sample({'whole runs': '%d runs of the compiled binary over a directory of %d files (probe with one parameter per line, nested directories): identical reports' % (n, len(files))})
+
+
 def body(chk):
     sh = {'vul': [], 'opt': [], 'qa': []}
     vt, ot, qt = [v for v, _ in rl.VUL], [v for v, _ in rl.OPT], [v for v, _ in rl.QA]
@@ -270,7 +307,8 @@ def body(chk):
         sh['vul'].append([(v, [1]) for v in vt])
     chk.bounds = {'findings sets': '%d sets: pairs and triples of patterns, 1-3 files per pattern with symbolic (possibly equal) names and lines' % sum(len(v) for v in sh.values()),
                   'orders': 'all insertion orders of patterns x all discovery orders of files (up to %d per set) x HashMap iteration order fixed / arbitrary' % (6 if chk.quick else 24),
-                  'outside': 'more than 3 patterns per map with arbitrary iteration order (n! orders)'}
+                  'whole runs': 'the compiled binary 8 (thorough 40) times over one directory of 4 files',
+                  'outside': 'more than 3 patterns per map with arbitrary iteration order (n! orders); detectors under arbitrary container iteration order are decided in C15'}
     chk.assumptions = ['HashMap contract: iteration order is unspecified (every permutation is a path)', 'slice::sort / sort_by contracts: stable sorted permutation',
                        'native confirmation runs the real generator in several processes (different hash seeds)']
     items = []
@@ -282,6 +320,7 @@ def body(chk):
     if not chk.quick:
         full_shapes.append([(ot[5], [2, 1, 1])])
     chk.parallel(job_full, [[s_] for s_ in full_shapes])
+    whole_runs(chk)
 
 
 if __name__ == '__main__':
